@@ -123,6 +123,56 @@ CLAIMS["C12"] = (
     TECH + " with exceptions as first-class outcomes and a ghost call trace; bounded fault-injection stand-in",
 )
 
+BOUNDED_TECH = "bounded contract check (exhaustive small scope, real code, oracle from the statement) as the labelled stand-in"
+
+CLAIMS["C03"] = (
+    "other",
+    "Bounded stand-in only (never counted as proved): all strings of length <= 5 (thorough: more) over {a, b, space, newline, a double-width and a zero-width character} x widths x 4 wrap modes "
+    "x 3 alignments x 3 encodings x str/bytes are laid out and rendered by the real code; the oracle (written from the statement) checks: every character shown once and in order, hidden "
+    "characters only of the permitted kinds, every rendered row fits the width, maximal fill in 'any' mode, breaks only at spaces in 'space' mode when every word fits, row count = rendered lines, no exception.",
+    "No deductive obligations for text_layout.py yet (string/segment-list code: generators over heterogeneous tuples; planned, see DESIGN §6 C03). One known finding (space wrap next to a double-width character).",
+    "§6 C03",
+    BOUNDED_TECH,
+)
+CLAIMS["C04"] = (
+    "other",
+    "Bounded stand-in only: the bytes the real raw display writes for frame histories of <= 3 small canvases (wide characters, DEC characters, attribute runs incl. undefined names and AttrSpec, cursor or none), "
+    "interleaved with clear() and resizes, at 5 colour depths, are interpreted by an independent reference terminal (spec/term_state.py + spec/sgr.py, written from ECMA-48/xterm, not from urwid) and "
+    "compared cell-for-cell (text + attributes), cursor, never-scrolled, incremental == full repaint; HtmlGenerator text and cursor span.",
+    "No postcondition of draw_screen within the deductive back end's reach expresses 'a terminal interpreting these bytes shows this canvas' (DESIGN §6 C04): bounded only, level 'other'. The reference interpreter is part of the oracle (trusted). "
+    "Three known findings on control characters in canvas text (C0 in UTF-8, DEL in 8-bit encodings, C1).",
+    "§6 C04",
+    BOUNDED_TECH + " against a reference terminal interpreter",
+)
+CLAIMS["C06"] = (
+    "other",
+    "Proved (path-sensitive effect obligations generated from the real ASTs, one per public mutator and path): for 31 bundled widget classes, every normal-exit path of a public method / property setter "
+    "that writes an attribute read (transitively) by render/rows/pack/get_cursor_coords also invalidates the cached canvases (directly or through a callee whose contract says so). "
+    "The two-run statement itself (cached rendering == fresh rendering after any history) is decided by the bounded stand-in: widget trees of depth <= 3, histories of <= 4 steps of renders at several sizes/focus, "
+    "public mutators, contents edits, focus changes, walker edits, scroll positions, gc.",
+    "The effect analysis is a static obligation on the AST (backend 'ast-paths'), not an SMT proof of cache coherence; CanvasCache.store/fetch/invalidate themselves are not under contract yet; GC lifetime is exercised, not proved.",
+    "§6 C06",
+    TECH.replace("discharged by z3/cvc5", "path-sensitive invalidate-on-write effect obligations") + "; " + BOUNDED_TECH,
+)
+CLAIMS["C15"] = (
+    "other",
+    "Proved for all integers on the real code: TermCanvas.constrain_coords / set_term_cursor / move_cursor keep the cursor inside the grid (and inside the scrolling region where asked) for every argument incl. huge and negative ones; get_utf8_len. "
+    "Bounded stand-in: addstr on all byte strings of length <= 3 over 24 representative bytes at three sizes with resizes between chunks and arbitrary chunking, CSI sequences with parameters from {missing, 0, 1, size, size+1, 10^9}: "
+    "no exception, grid-shape invariant, well-formed replies; faithfulness on the statement's subset against an independent VT100 reference interpreter (spec/vt100.py) on generated command sequences; scroll-back order.",
+    "Parser (parse_csi / dispatch through a dict of lambdas) is outside the deductive subset: bounded only. Grid operations other than cursor arithmetic: being brought under contract (DESIGN §6 C15).",
+    "§6 C15",
+    TECH + " for the cursor arithmetic; " + BOUNDED_TECH,
+)
+CLAIMS["C17"] = (
+    "other",
+    "Proved: the run-length kernel the attribute lists live in (rle_len, rle_get_at, rle_append_modify, rle_prepend_modify against the expansion view) and AttrMap.render (focus_map used iff focus and a focus map is set; "
+    "the child is rendered once at the same size/focus; the map is applied to its canvas). Bounded stand-in: markup nestings of depth <= 3 over texts with multi-byte characters x widths x wrap x align: every cell carries the innermost "
+    "enclosing tag, padding cells none; AttrMap/AttrWrap chains; palettes with alias/mono/high entries at five depths: the SGR bytes written decode (independent SGR decoder) to the palette entry's colours and styles.",
+    "decompose_tagmarkup, apply_text_layout attribute ranges, _attrspec_to_escape: bounded only so far.",
+    "§6 C17",
+    TECH + " for the run-length kernel and AttrMap; " + BOUNDED_TECH,
+)
+
 PENDING = "contracts for this property are not built yet in this commit (see DESIGN.md §6 for the plan); no check is claimed"
 
 
